@@ -396,7 +396,9 @@ def main():
     rep = common.Report(PID, "model_checking")
     rep.rule = ("one case = one template; for every order-preserving permutation of its instance the real match_template runs on symbolic parameter values; "
                 "structural edits are concrete runs")
-    rep.bounds = {"templates": len(TEMPLATES), "operations": "<=5", "permutations per template": "all order-preserving ones (<= 24)", "coefficients": "concrete, non-zero"}
+    rep.bounds = {"templates": len(TEMPLATES), "operations": "<=5", "permutations per template": "all order-preserving ones (<= 24)", "coefficients": "concrete, non-zero",
+                  "histories": "match / change the arguments of the same object (symbolic second values) / match again; structural edits on fresh copies, on copies taken after a match, on matched copies",
+                  "API route": "the instance also as a new program object assembled by hand from the same operations"}
     rep.assumptions = [
         "real-number model: floats are reals, so an inconsistency between a directly read value and a value recovered through solve() is invisible (stated gap)",
         "SymPy boundary: program arguments enter SymPy as stand-in symbols (proxies' reflected operators); utils.float maps solved expressions back to z3 terms",
